@@ -217,6 +217,16 @@ func (it *interp) eval(e ast.Expr) value {
 					return concV(l.n - r.n)
 				case token.MUL:
 					return concV(l.n * r.n)
+				case token.QUO:
+					if r.n == 0 {
+						it.fail("division by zero")
+					}
+					return concV(l.n / r.n)
+				case token.REM:
+					if r.n == 0 {
+						it.fail("division by zero")
+					}
+					return concV(l.n % r.n)
 				}
 			}
 			it.fail("arithmetic (%s) on an input value", x.Op)
@@ -246,14 +256,14 @@ func (it *interp) call(c *ast.CallExpr) []value {
 		return []value{it.eval(c.Args[0])}
 	}
 	fn := core.Callee(it.info, c)
-	if fn == nil || fn.Pkg() == nil || fn.Pkg().Path() != core.PkgGts {
+	if fn == nil || fn.Pkg() == nil || (fn.Pkg().Path() != core.PkgGts && fn.Pkg().Path() != core.PkgSeqio) {
 		it.fail("call of %v", types.ExprString(c.Fun))
 	}
 	sig := fn.Type().(*types.Signature)
 	if sig.Recv() != nil {
 		it.fail("method call %s", fn.Name())
 	}
-	fd := it.prog.FuncDecl(core.PkgGts, fn.Name())
+	fd := it.prog.FuncDecl(fn.Pkg().Path(), fn.Name())
 	if fd == nil || fd.Body == nil {
 		it.fail("callee %s has no body", fn.Name())
 	}
@@ -261,7 +271,7 @@ func (it *interp) call(c *ast.CallExpr) []value {
 	for _, a := range c.Args {
 		args = append(args, it.eval(a))
 	}
-	sub := &interp{info: it.info, rank: it.rank, env: map[types.Object]*value{}, prog: it.prog}
+	sub := &interp{info: it.prog.Info(fn.Pkg().Path()), rank: it.rank, env: map[types.Object]*value{}, prog: it.prog}
 	return sub.run(fd, nil, args)
 }
 
@@ -358,7 +368,36 @@ func (it *interp) stmt(s ast.Stmt) {
 		}
 	case *ast.AssignStmt:
 		if x.Tok != token.ASSIGN && x.Tok != token.DEFINE {
-			it.fail("compound assignment %s", x.Tok)
+			// compound assignment on concrete numbers only
+			ops := map[token.Token]token.Token{token.ADD_ASSIGN: token.ADD, token.SUB_ASSIGN: token.SUB, token.MUL_ASSIGN: token.MUL, token.QUO_ASSIGN: token.QUO, token.REM_ASSIGN: token.REM}
+			op, ok := ops[x.Tok]
+			if !ok || len(x.Lhs) != 1 || len(x.Rhs) != 1 {
+				it.fail("compound assignment %s", x.Tok)
+			}
+			t := it.lvalue(x.Lhs[0])
+			rv := it.eval(x.Rhs[0])
+			if t.k != kConc || rv.k != kConc {
+				it.fail("arithmetic (%s) on an input value", x.Tok)
+			}
+			switch op {
+			case token.ADD:
+				t.n += rv.n
+			case token.SUB:
+				t.n -= rv.n
+			case token.MUL:
+				t.n *= rv.n
+			case token.QUO:
+				if rv.n == 0 {
+					it.fail("division by zero")
+				}
+				t.n /= rv.n
+			case token.REM:
+				if rv.n == 0 {
+					it.fail("division by zero")
+				}
+				t.n %= rv.n
+			}
+			return
 		}
 		var vals []value
 		if len(x.Rhs) == 1 && len(x.Lhs) > 1 {
@@ -397,8 +436,45 @@ func (it *interp) stmt(s ast.Stmt) {
 				*t = vals[i]
 			}
 		}
+	case *ast.IncDecStmt:
+		t := it.lvalue(x.X)
+		if t.k != kConc {
+			it.fail("++/-- on an input value")
+		}
+		if x.Tok == token.INC {
+			t.n++
+		} else {
+			t.n--
+		}
 	case *ast.DeclStmt:
-		it.fail("declaration statement")
+		gd, ok := x.Decl.(*ast.GenDecl)
+		if !ok {
+			it.fail("declaration statement")
+		}
+		switch gd.Tok {
+		case token.CONST, token.TYPE:
+			// constants are folded by the type checker wherever they are used
+		case token.VAR:
+			for _, sp := range gd.Specs {
+				vs := sp.(*ast.ValueSpec)
+				for i, n := range vs.Names {
+					nv := &value{k: kConc}
+					if i < len(vs.Values) && len(vs.Values) == len(vs.Names) {
+						v := it.eval(vs.Values[i]).copy()
+						nv = &v
+					} else if len(vs.Values) > 0 {
+						it.fail("tuple variable declaration")
+					} else if b, isB := it.info.Defs[n].Type().Underlying().(*types.Basic); isB && b.Info()&types.IsBoolean != 0 {
+						nv = &value{k: kBool}
+					} else if !isB || b.Info()&types.IsInteger == 0 {
+						it.fail("variable of unsupported type")
+					}
+					it.env[it.info.Defs[n]] = nv
+				}
+			}
+		default:
+			it.fail("declaration statement")
+		}
 	case *ast.ExprStmt:
 		it.fail("expression statement")
 	default:
@@ -455,4 +531,97 @@ func evalFunc(p *core.Prog, info *types.Info, fd *ast.FuncDecl, rank []int, recv
 	}()
 	it := &interp{info: info, rank: rank, env: map[types.Object]*value{}, prog: p}
 	return it.run(fd, recv, args), nil
+}
+
+// Result of a finite-quotient evaluation.
+type Result struct {
+	Int  int64
+	Bool bool
+	IsB  bool
+}
+
+// EvalInts evaluates a function of the comparison/arithmetic fragment on
+// concrete integer arguments. It is used only together with QuotientUses,
+// which proves that the function depends on its parameter solely through
+// `p / c` and `p % c` for the listed constants, so that finitely many
+// representatives decide it for every integer.
+func EvalInts(p *core.Prog, pkg, name string, args ...int64) (Result, error) {
+	fd := p.FuncDecl(pkg, name)
+	if fd == nil || fd.Body == nil {
+		return Result{}, fmt.Errorf("anchor-unresolved: %s.%s", pkg, name)
+	}
+	var vs []value
+	for _, a := range args {
+		vs = append(vs, concV(a))
+	}
+	out, err := evalFunc(p, p.Info(pkg), fd, nil, nil, vs)
+	if err != nil {
+		return Result{}, err
+	}
+	if len(out) != 1 {
+		return Result{}, fmt.Errorf("function does not return a single value")
+	}
+	switch out[0].k {
+	case kConc:
+		return Result{Int: out[0].n}, nil
+	case kBool:
+		return Result{Bool: out[0].b, IsB: true}, nil
+	}
+	return Result{}, fmt.Errorf("result is neither an integer nor a boolean")
+}
+
+// QuotientUses checks that every use of parameter #idx of the function is the
+// left operand of `/ c` or `% c` with c one of moduli.
+func QuotientUses(p *core.Prog, pkg, name string, idx int, moduli []int64) (bool, string) {
+	fd := p.FuncDecl(pkg, name)
+	if fd == nil || fd.Body == nil {
+		return false, "anchor-unresolved"
+	}
+	info := p.Info(pkg)
+	var param types.Object
+	k := 0
+	for _, f := range fd.Type.Params.List {
+		for _, n := range f.Names {
+			if k == idx {
+				param = info.Defs[n]
+			}
+			k++
+		}
+	}
+	if param == nil {
+		return false, "parameter not found"
+	}
+	par := core.Parents(fd.Body)
+	why := ""
+	ast.Inspect(fd.Body, func(n ast.Node) bool {
+		id, ok := n.(*ast.Ident)
+		if !ok || info.Uses[id] != param {
+			return true
+		}
+		var up ast.Node = id
+		for {
+			q, isParen := par[up].(*ast.ParenExpr)
+			if !isParen {
+				break
+			}
+			up = q
+		}
+		be, ok := par[up].(*ast.BinaryExpr)
+		if !ok || (be.Op != token.QUO && be.Op != token.REM) || ast.Unparen(be.X) != ast.Expr(id) {
+			why = "the parameter is used other than as the dividend of / or %"
+			return true
+		}
+		c, ok := core.ConstInt(info, be.Y)
+		okc := false
+		for _, m := range moduli {
+			if ok && c == m {
+				okc = true
+			}
+		}
+		if !okc {
+			why = fmt.Sprintf("the parameter is divided by %d, which is not one of the layout moduli %v", c, moduli)
+		}
+		return true
+	})
+	return why == "", why
 }
